@@ -3,6 +3,7 @@ package mon
 import (
 	"crypto/sha256"
 	"fmt"
+	"go.step.sm/crypto/x25519"
 	"reflect"
 	"runtime"
 	"sort"
@@ -40,6 +41,9 @@ type sharedValue struct {
 	val  any             // pointer to the shared value
 	ops  []func() string // additional read-only operations beyond the reflective accessor sweep
 }
+
+// c18FreshName numbers the option names no earlier call has used.
+var c18FreshName atomic.Int64
 
 // c18Values builds one parsed and one constructed value per structure type from the stream.
 func c18Values(r *core.Rand) []sharedValue {
@@ -163,10 +167,34 @@ func c18Values(r *core.Rand) []sharedValue {
 	am.Options = rm.Mapping{Pairs: []rm.Pair{{K: []byte("host"), V: []byte("1.2.3.4")}, {K: []byte("port"), V: []byte("1234")}, {K: []byte("s"), V: r.Bytes(32)}, {K: []byte("i"), V: r.Bytes(16)}, {K: []byte("caps"), V: []byte("BC")}}}
 	if a, _, err := router_address.ReadRouterAddress(am.Encode()); err == nil {
 		a := a
-		add("RouterAddress/parsed", &a, func() string { return fmt.Sprint(a.Equals(a)) })
+		optionQueries := func() string {
+			// option lookups by name: the well-known names, and names no call has asked for before
+			// (every call draws fresh ones: first-use paths run inside the concurrent round)
+			n := c18FreshName.Add(1)
+			fresh := fmt.Sprintf("x-%d", n)
+			fk := data.I2PString(append([]byte{byte(len(fresh))}, fresh...))
+			hk := data.I2PString("\x04host")
+			return fmt.Sprint(a.CheckOption("host"), a.CheckOption("port"), a.CheckOption(fresh), a.CheckOption("ih"+fmt.Sprint(n%5)), a.HasOption(fk), a.HasOption(hk), string(a.GetOption(fk)), string(a.GetOption(hk)))
+		}
+		add("RouterAddress/parsed", &a, func() string { return fmt.Sprint(a.Equals(a)) }, optionQueries)
+	}
+	// an address whose (unused, normally all-zero) expiration field is set on the wire: only a parser yields it
+	am2 := am
+	copy(am2.Expiration[:], r.Bytes(8))
+	am2.Expiration[0] |= 1
+	if a, _, err := router_address.ReadRouterAddress(am2.Encode()); err == nil {
+		a := a
+		if o, _, err := router_address.ReadRouterAddress(am2.Encode()); err == nil {
+			add("RouterAddress/parsed-with-expiration", &a, func() string { return fmt.Sprint(a.Equals(a), a.Equals(o), o.Equals(a)) })
+		}
 	}
 	if a, err := lib.BuildRouterAddress(am); err == nil {
-		add("RouterAddress/constructed", a)
+		a := a
+		add("RouterAddress/constructed", a, func() string {
+			n := c18FreshName.Add(1)
+			fresh := fmt.Sprintf("y-%d", n)
+			return fmt.Sprint(a.CheckOption("host"), a.CheckOption(fresh), a.CheckOption("port"), a.Equals(*a))
+		})
 	}
 	rim, _ := gen.RouterInfo(r)
 	rim.Ident, _ = identWithKey(r, key, rm.IdentCryptoTypes)
@@ -318,6 +346,28 @@ func c18Values(r *core.Rand) []sharedValue {
 		if ls, err := lease_set2.NewLeaseSet2(*d, 1700000000, 600, 0, nil, data.Mapping{}, keys, leases, priv); err == nil {
 			ls := ls
 			add("LeaseSet2/constructed-zero-options", &ls)
+		}
+	}
+	// an EncryptedLeaseSet whose inner data really is a ciphertext: decrypting (with the right key,
+	// with a wrong one) is a read of the shared value like serialising and verifying it
+	if inner, _ := gen.LeaseSet2(r); true {
+		plain := inner.Encode()
+		if blob, rpriv, err := encryptForTest(r, plain); err == nil {
+			if els, err := elsWith(blob); err == nil && els != nil {
+				wrong, _, _ := rm.X25519KeyPair(r.Bytes(32))
+				var cookie [32]byte
+				add("EncryptedLeaseSet/decryptable", els, func() string {
+					got, err := els.DecryptInnerData(cookie[:], x25519.PrivateKey(rpriv))
+					if err != nil || got == nil {
+						return "right key: error"
+					}
+					b, _ := got.Bytes()
+					return fmt.Sprintf("right key: %x", sha256.Sum256(b))
+				}, func() string {
+					_, err := els.DecryptInnerData(cookie[:], x25519.PrivateKey(wrong))
+					return fmt.Sprint("wrong key: ", err != nil)
+				})
+			}
 		}
 	}
 	em, _ := gen.EncryptedLeaseSet(r)
